@@ -92,6 +92,7 @@ type rHist struct {
 	Pubs    []string          `json:"pubs"`    // what G published, classified
 	PubMon  []string          `json:"pub_mon"` // problems with what G published
 	Timeout string            `json:"timeout,omitempty"`
+	Exited  string            `json:"exited,omitempty"`
 	Fatal   string            `json:"fatal,omitempty"`
 	MeshMs  int64             `json:"mesh_ms"`
 	HistMs  int64             `json:"hist_ms"`
@@ -164,10 +165,15 @@ func rNewPeer(ctx context.Context, r *vrng, topic string) (*rPeer, error) {
 }
 
 // take removes and returns the first inbox message satisfying pred, waiting up to d
-func (p *rPeer) take(pred func(*pubsub.Message) bool, d time.Duration) *pubsub.Message {
+func (p *rPeer) take(pred func(*pubsub.Message) bool, d time.Duration, abort <-chan struct{}) *pubsub.Message {
 	deadline := time.NewTimer(d)
 	defer deadline.Stop()
 	for {
+		select {
+		case <-abort:
+			return nil
+		default:
+		}
 		p.mu.Lock()
 		for i, m := range p.inbox {
 			if pred(m) {
@@ -180,6 +186,8 @@ func (p *rPeer) take(pred func(*pubsub.Message) bool, d time.Duration) *pubsub.M
 		select {
 		case <-p.wake:
 		case <-time.After(200 * time.Millisecond):
+		case <-abort:
+			return nil
 		case <-deadline.C:
 			return nil
 		}
@@ -213,12 +221,23 @@ type rNode struct {
 	kecT, recT   map[string]bool
 	dhT, drT     map[string]bool
 	curGS        *node_common.GuardianSet // what the harness installed last (bookkeeping for the monitor)
+	pending      *rOp                     // the envelope handed to the network / the node and not yet acknowledged
 	started      time.Time
 }
 
 type rTimeout struct{ what string }
+type rExit struct{ what string }
 
-func (n *rNode) fail(what string) { panic(rTimeout{what}) }
+// a delivery deadline: machinery.  But when p2p.Run itself has returned / panicked (its deferred rootCtxCancel ran) while an
+// envelope was being dispatched, that envelope is a concrete finding
+func (n *rNode) fail(what string) {
+	select {
+	case <-n.exited:
+		panic(rExit{what})
+	default:
+	}
+	panic(rTimeout{what})
+}
 
 func rDetMarshal(m proto.Message) []byte {
 	b, err := proto.MarshalOptions{Deterministic: true}.Marshal(m)
@@ -278,13 +297,8 @@ func rStartNode(t *testing.T, id int, r *vrng, disable bool, shape string, attem
 	if os.Getenv("VERIF_P2P_DEBUG") != "" {
 		logger, _ = zap.NewDevelopment()
 	}
-	rootCancel := func() {
-		select {
-		case <-n.exited:
-		default:
-			close(n.exited)
-		}
-	}
+	var once sync.Once
+	rootCancel := func() { once.Do(func() { close(n.exited) }) }
 	n.started = time.Now()
 	// as cmd/guardiand/node.go: Run is a child of the supervisor's root runnable; port 0 = any free localhost port
 	supervisor.New(ctx, logger, func(sctx context.Context) error {
@@ -518,7 +532,7 @@ func (n *rNode) waitMesh() {
 			_ = n.peers[x].th.Publish(n.ctx, data)
 			w := n.peers[1-x]
 			from := n.peers[x].h.ID()
-			if m := w.take(func(m *pubsub.Message) bool { return m.ReceivedFrom == n.id && m.GetFrom() == from && bytes.Equal(m.Data, data) }, 400*time.Millisecond); m != nil {
+			if m := w.take(func(m *pubsub.Message) bool { return m.ReceivedFrom == n.id && m.GetFrom() == from && bytes.Equal(m.Data, data) }, 400*time.Millisecond, n.exited); m != nil {
 				okDir[x] = true
 			}
 		}
@@ -601,12 +615,13 @@ func (n *rNode) opRecv(x int, data []byte, note string) {
 	op := rOp{K: "recv", From: n.h.Peers[x], Data: rHex(data), Note: note}
 	msg := n.classify(data, &op)
 	before, _ := n.snapshot()
+	n.pending = &op
 	if err := n.peers[x].th.Publish(n.ctx, data); err != nil {
 		n.fail("publish: " + err.Error())
 	}
 	from := n.peers[x].h.ID()
-	if m := n.peers[1-x].take(func(m *pubsub.Message) bool { return m.ReceivedFrom == n.id && m.GetFrom() == from && bytes.Equal(m.Data, data) }, rWait); m == nil {
-		n.fail(fmt.Sprintf("envelope of step %d (%s) was not forwarded by G to the other peer within %v", len(n.h.Ops), note, rWait))
+	if m := n.peers[1-x].take(func(m *pubsub.Message) bool { return m.ReceivedFrom == n.id && m.GetFrom() == from && bytes.Equal(m.Data, data) }, rWait, n.exited); m == nil {
+		n.fail(fmt.Sprintf("envelope of step %d (%s) was not forwarded by G to the other peer (deadline %v, or p2p.Run exited)", len(n.h.Ops), note, rWait))
 	}
 	outs, ptrs := n.barrier(x)
 	n.normReq(&op, outs, ptrs)
@@ -635,6 +650,7 @@ func (n *rNode) opLocalSend(data []byte, note string) {
 	op := rOp{K: "lsend", From: n.h.Self, Data: rHex(data), Note: note}
 	msg := n.classify(data, &op)
 	before, _ := n.snapshot()
+	n.pending = &op
 	select {
 	case n.sendC <- data:
 	case <-n.exited:
@@ -643,7 +659,7 @@ func (n *rNode) opLocalSend(data []byte, note string) {
 		n.fail("sendC not read within " + rWait.String())
 	}
 	for x := 0; x < 2; x++ {
-		if m := n.peers[x].take(func(m *pubsub.Message) bool { return m.GetFrom() == n.id && bytes.Equal(m.Data, data) }, rWait); m == nil {
+		if m := n.peers[x].take(func(m *pubsub.Message) bool { return m.GetFrom() == n.id && bytes.Equal(m.Data, data) }, rWait, n.exited); m == nil {
 			n.fail(fmt.Sprintf("bytes given to sendC were not published to peer %d within %v", x, rWait))
 		}
 	}
@@ -660,6 +676,7 @@ func (n *rNode) opLocalReq(req *gossipv1.ObservationRequest, note string) {
 	payload := rDetMarshal(req)
 	op := rOp{K: "lreq", Payload: rHex(payload), Note: note}
 	before, _ := n.snapshot()
+	n.pending = &op
 	select {
 	case n.obsvReqSendC <- req:
 	case <-time.After(rWait):
@@ -681,7 +698,7 @@ func (n *rNode) opLocalReq(req *gossipv1.ObservationRequest, note string) {
 			}
 			var q gossipv1.ObservationRequest
 			return proto.Unmarshal(s.ObservationRequest, &q) == nil && proto.Equal(&q, req)
-		}, rWait)
+		}, rWait, n.exited)
 		if got[x] == nil {
 			n.fail(fmt.Sprintf("request given to obsvReqSendC was not published to peer %d within %v", x, rWait))
 		}
@@ -843,6 +860,7 @@ func (n *rNode) finish(op rOp, st *rStep, before []rEntry, _ interface{}) {
 	}
 	n.h.Ops = append(n.h.Ops, op)
 	n.h.Steps = append(n.h.Steps, *st)
+	n.pending = nil
 }
 
 // ------------------------------------------------------------------ G's own periodic heartbeat as the network sees it
@@ -863,7 +881,7 @@ func (n *rNode) ownHeartbeat() {
 		}
 		hbEnv = g.GetSignedHeartbeat()
 		return hbEnv != nil
-	}, left)
+	}, left, n.exited)
 	n.h.OwnHbMs = time.Since(t0).Milliseconds()
 	if m == nil {
 		n.fail(fmt.Sprintf("G's own heartbeat was not seen on the topic within %v of its start", rOwnHbWait))
@@ -1101,6 +1119,15 @@ func rHistory(t *testing.T, id int, seed uint64, disable bool, nsteps int, attem
 		if x := recover(); x != nil {
 			if to, ok := x.(rTimeout); ok {
 				h.Timeout = to.what
+				return
+			}
+			if ex, ok := x.(rExit); ok {
+				h.Exited = ex.what
+				if n.pending != nil {
+					gsKnown := n.curGS != nil
+					h.Ops = append(h.Ops, *n.pending)
+					h.Steps = append(h.Steps, rStep{Outs: [][2]string{}, Mon: []string{fmt.Sprintf("loop-exit: p2p.Run returned / panicked (root context cancelled: the whole node goes down) while this envelope was dispatched; guardian set known: %v, published by the node itself: %v", gsKnown, n.pending.K == "lsend")}})
+				}
 				return
 			}
 			h.Fatal = fmt.Sprintf("harness panic: %v", x)
